@@ -12,6 +12,9 @@
  *   R a b c d                  vm_get_slice_range (res, oob preset 0) -> R res_from res_to oob
  *   CA s1 | s2                 object_arr_can_add   (s = `nil` or extents; arrays built with
  *   CM s1 | s2                 object_arr_can_mult   object_new_arr) -> CA 0|1, CM 0|1
+ *   C n1 .. nk                 object_arr_dim_mult, object_arr_dim_copy -> C n1 m1 .. nk mk
+ *   CD n1 m1 .. nk mk          object_arr_dim_copy on a given dv    -> CD n1 m1 .. nk mk
+ *   CO n1 .. nk                object_new_arr, object_arr_copy      -> CO dims elems n1 m1 .. nk mk
  *   X b0 h0 b1 h1 .. | ip ..   exception_tab_new(2)/insert, then per ip exctab_search on
  *                              (tab, count) and exception_tab_search  -> X i:h | - ...
  *   XN ip ..                   exctab_search(NULL, 3, ip)              -> X - ...
@@ -119,6 +122,35 @@ int main(int argc, char ** argv)
             char r = !strcmp(c, "CA") ? object_arr_can_add(a1, a2) : object_arr_can_mult(a1, a2);
             printf("%s %d\n", c, r ? 1 : 0);
             free_arr(o1); free_arr(o2);
+        }
+        else if (!strcmp(c, "C") || !strcmp(c, "CD"))
+        {
+            int isd = !strcmp(c, "CD");
+            unsigned int dims = isd ? (ntok - 1) / 2 : (ntok - 1), d, elems = 0;
+            object_arr_dim * dv = object_arr_dim_new(dims ? dims : 1);
+            for (d = 0; d < dims; d++)
+            {
+                if (isd) { dv[d].elems = u(toks[1 + 2 * d]); dv[d].mult = u(toks[2 + 2 * d]); }
+                else { dv[d].elems = u(toks[1 + d]); dv[d].mult = 0; }
+            }
+            if (!isd) object_arr_dim_mult(dims, dv, &elems);
+            object_arr_dim * cp = object_arr_dim_copy(dims, dv);
+            printf("%s", c);
+            for (d = 0; d < dims; d++) printf(" %u %u", cp[d].elems, cp[d].mult);
+            printf("\n");
+            object_arr_dim_delete(dv); object_arr_dim_delete(cp);
+        }
+        else if (!strcmp(c, "CO"))
+        {
+            unsigned int dims = ntok - 1, d;
+            object_arr_dim * dv = object_arr_dim_new(dims ? dims : 1);
+            for (d = 0; d < dims; d++) { dv[d].elems = u(toks[1 + d]); dv[d].mult = 0; }
+            object * o = object_new_arr(dims, dv);
+            object * cp = object_arr_copy(o);
+            printf("CO %u %u", cp->arr_value->dims, cp->arr_value->elems);
+            for (d = 0; d < dims; d++) printf(" %u %u", cp->arr_value->dv[d].elems, cp->arr_value->dv[d].mult);
+            printf("\n");
+            object_delete(o); object_delete(cp);
         }
         else if (!strcmp(c, "X"))
         {
